@@ -32,7 +32,7 @@ def wide_spec():
                 {"name": "id", "in": "path", "required": True, "type": "string"},
                 {"name": "q", "in": "query", "type": "string"}, {"name": "Q", "in": "header", "type": "string"},
                 {"name": "limit", "in": "query", "type": "integer"}, {"name": "Limit", "in": "header", "type": "integer"},
-                {"name": "x-a", "in": "header", "type": "string"}, {"name": "x_a", "in": "query", "type": "string"},
+                {"name": "x-a", "in": "header", "type": "string"}, {"name": "x_b", "in": "query", "type": "string"},
                 {"name": "dup", "in": "query", "type": "string"}, {"name": "dup", "in": "header", "type": "integer"},
                 {"name": "body", "in": "body", "schema": {"$ref": "#/definitions/def%d" % i}}],
             "responses": {str(c): {"description": "r%d" % c, "schema": {"$ref": "#/definitions/def%d" % ((i + c) % 8)},
